@@ -78,10 +78,12 @@ FW_PLANS = {
             mc=[C("core-quick", "core", 2, 2, "mixed", [])],
             gen=[C("core-quick", "full", 2, 1, "mixed"), C("ctr-quick", "ctr", 2, 2, "one"),
                  C("ctr-quick", "ctr", 1, 3, "one"), C("sig-trio", "sig", 1, 2, "one"),
-                 C("sig-quick", "sig", 2, 1, "one"), C("limit-quick", "limit", 3, 1, "one")],
-            rand=dict(scenarios=400, calls=30)),
+                 C("sig-quick", "sig", 2, 1, "one"), C("limit-quick", "limit", 3, 1, "one"),
+                 C("limit-duo", "limit", 3, 1, "one"), C("sig-duo", "sig", 2, 2, "one"),
+                 C("limit-reenter", "limit", 3, 1, "one")],
+            rand=dict(scenarios=400, calls=30), compose=dict(scenarios=40)),
         thorough=dict(
-            workers=14,
+            workers=14, compose=dict(scenarios=400),
             mc=[C("core-thorough", "core", 2, 2, "mixed", [])],
             gen=[C("core-quick", "full", 2, 2, "mixed", timeout=3000), C("core-thorough", "core", 3, 1, "mixed"),
                  C("ctr-quick", "ctr", 3, 2, "one"), C("sig-quick", "sig", 2, 2, "one"),
@@ -94,7 +96,7 @@ FW_PLANS = {
         quick=dict(
             mc=[C("limit-quick", "limit", 4, 1, "one", ["Inv_C07"]), C("limit-reenter", "limit", 3, 1, "one", ["Inv_C07"])],
             gen=[C("limit-quick", "limit", 3, 1, "one"), C("limit-quick", "limit", 1, 3, "one"),
-                 C("limit-reenter", "limit", 3, 1, "one")],
+                 C("limit-reenter", "limit", 3, 1, "one"), C("limit-duo", "limit", 3, 1, "one")],
             rand=dict(scenarios=300, calls=30)),
         thorough=dict(
             workers=14,
@@ -120,7 +122,7 @@ FW_PLANS = {
         rule=RULE % "a transition to the signal pseudo-state",
         quick=dict(
             mc=[C("sig-quick", "sig", 2, 2, "one", ["Inv_C09"]), C("sig-trio", "sig", 1, 2, "one", ["Inv_C09"])],
-            gen=[C("sig-quick", "sig", 2, 1, "one"), C("sig-trio", "sig", 1, 2, "one")],
+            gen=[C("sig-quick", "sig", 2, 1, "one"), C("sig-trio", "sig", 1, 2, "one"), C("sig-duo", "sig", 2, 2, "one")],
             rand=dict(scenarios=300, calls=30)),
         thorough=dict(
             workers=14,
